@@ -160,3 +160,6 @@ def run(chk):
     r4_no_heartbeat_v2(chk)
     r5_timer_period(chk)
     r6_backends_tick(chk)
+    # heartbeats under an encrypting framer: PING/PONG may jump the queue only while the framer is pass-through *now*
+    from rules.c18 import r6_priority_only_when_passthrough_now
+    r6_priority_only_when_passthrough_now(chk, rid="R7")
